@@ -26,7 +26,11 @@ type c09Case struct {
 	Raw    hx.Hex      `json:"raw,omitempty"`     // NOTIFICATION body override (e.g. shorter than 2 bytes)
 	UpdLen int         `json:"upd_len,omitempty"` // UPDATE body length
 	Hold   uint16      `json:"hold,omitempty"`    // hold time in a second OPEN
-	Cuts   []int       `json:"cuts,omitempty"`
+	// Prev: earlier sessions of the same peer (on the outbound direction: the
+	// same FSM object), each Established and ended by a received Cease or a
+	// TCP close, before the connection under test
+	Prev []string `json:"prev,omitempty"` // "cease" | "fin"
+	Cuts []int    `json:"cuts,omitempty"`
 }
 
 var stimTypes = map[string]uint8{"open": 1, "update": 2, "notification": 3, "keepalive": 4}
@@ -49,7 +53,7 @@ func c09Prop(t *testing.T, r *hx.Run, sub string) func(c c09Case) hx.Verdict {
 			dir = "out"
 		}
 		v := hx.Verdict{Class: fmt.Sprintf("%s/%s/%s", c.State, c.Stim, dir)}
-		v.NT = fmt.Sprintf("%s/%s/%s/%v/%x/%d/%d", c.State, c.Stim, dir, c.Notif, []byte(c.Raw), c.UpdLen, c.Hold)
+		v.NT = fmt.Sprintf("%s/%s/%s/%v/%x/%d/%d/%v", c.State, c.Stim, dir, c.Notif, []byte(c.Raw), c.UpdLen, c.Hold, c.Prev)
 		p := basePeer(c.Out)
 		var dev *hx.Dev
 		fail := func(key, f string, a ...any) {
@@ -57,150 +61,201 @@ func c09Prop(t *testing.T, r *hx.Run, sub string) func(c c09Case) hx.Verdict {
 				dev = hx.Devf(key, f, a...)
 			}
 		}
-		o, serr := world.Single(t, "10.0.0.1", p, c.Out, nil, func(w *world.World, conn *memnet.Conn) {
-			for _, m := range handshakeBytes(p, conn, c.State, 90) {
-				conn.RemoteSend(m, nil)
+		p.IdleHoldMs, p.ConnRetryMs = 100, 1000
+		var serr error
+		o := world.Run(t, func() {
+			w, err := world.New("10.0.0.1", nil)
+			if err != nil {
+				serr = err
+				return
+			}
+			defer w.Finish()
+			if c.Out {
+				w.Net.SetPlans(p.RemoteAddr(), memnet.DialPlan{Kind: memnet.Accept})
+			}
+			if err := w.AddPeer(p); err != nil {
+				serr = err
+				return
+			}
+			w.Serve()
+			w.Settle()
+			getConn := func(k int) *memnet.Conn {
+				if !c.Out {
+					cn := w.Inbound(p.Remote, "10.0.0.1")
+					w.Settle()
+					return cn
+				}
+				if !w.Net.WaitDials(k+1, 5*time.Second) {
+					return nil
+				}
+				w.Settle()
+				return w.Net.Dials()[k].Conn
+			}
+			for k, end := range c.Prev {
+				cn := getConn(k)
+				if cn == nil {
+					fail("setup", "no connection for earlier session %d", k)
+					return
+				}
+				world.Handshake(w, p, cn, 90, 0x0a000002)
+				if end == "cease" {
+					cn.RemoteSend(wire.Notif{Code: 6, Sub: 4}.Frame(), nil)
+					w.Settle()
+				}
+				cn.RemoteClose()
 				w.Settle()
 			}
-			before, perr := world.Parsed(conn)
-			if perr != nil {
-				fail("malformed-output", "%v", perr)
+			conn := getConn(len(c.Prev))
+			if conn == nil {
+				fail("setup", "no connection for the session under test")
 				return
 			}
-			count := func(k string) int {
-				n := 0
-				for _, e := range w.Rec.Events() {
-					if e.K == k {
-						n++
-					}
+			func() {
+				for _, m := range handshakeBytes(p, conn, c.State, 90) {
+					conn.RemoteSend(m, nil)
+					w.Settle()
 				}
-				return n
-			}
-			estBefore := count("est+")
-			if (c.State == stEstablished) != (estBefore == 1) {
-				fail("setup-state", "could not reach %s (OnEstablished x%d)", c.State, estBefore)
-				return
-			}
-			nwBefore := len(conn.Snapshot().Writes)
-			updBody := taggedUpdate(0xD0000000, c.UpdLen)
-			var stim []byte
-			switch c.Stim {
-			case "open":
-				hold := c.Hold
-				if hold == 0 {
-					hold = 90
+				before, perr := world.Parsed(conn)
+				if perr != nil {
+					fail("malformed-output", "%v", perr)
+					return
 				}
-				stim = world.RemoteOpen(p, conn, hold, 0x0a000002).Frame()
-			case "update":
-				stim = wire.Frame(wire.TypeUpdate, updBody)
-			case "keepalive":
-				stim = wire.Keepalive()
-			case "notification":
-				if c.Raw != nil {
-					stim = wire.Frame(wire.TypeNotification, c.Raw)
-				} else {
-					stim = c.Notif.Frame()
+				count := func(k string) int {
+					n := 0
+					for _, e := range w.Rec.Events() {
+						if e.K == k {
+							n++
+						}
+					}
+					return n
 				}
-			case "fin":
-				conn.RemoteClose()
-			case "rst":
-				conn.RemoteReset()
-			}
-			if stim != nil {
-				conn.RemoteSend(stim, c.Cuts)
-			}
-			w.Settle()
-			msgs, perr := world.Parsed(conn)
-			if perr != nil {
-				fail("malformed-output", "%v", perr)
-				return
-			}
-			after := msgs[len(before):]
-			st := conn.Snapshot()
-			legal := (c.State == stOpenSent && c.Stim == "open") ||
-				(c.State == stOpenConfirm && c.Stim == "keepalive") ||
-				(c.State == stEstablished && (c.Stim == "keepalive" || c.Stim == "update"))
-			wasEst := c.State == stEstablished
-			if legal {
-				switch {
-				case c.State == stOpenSent:
-					if len(after) != 1 || after[0].Type != wire.TypeKeepalive || st.LocalClosed {
-						fail("legal-open-refused", "valid OPEN in OpenSent: corebgp sent %d messages (first type %v), closed=%v", len(after), firstType(after), st.LocalClosed)
+				estBefore := count("est+")
+				if (c.State == stEstablished) != (estBefore == len(c.Prev)+1) || (c.State != stEstablished && estBefore != len(c.Prev)) {
+					fail("setup-state", "could not reach %s (OnEstablished x%d)", c.State, estBefore)
+					return
+				}
+				nwBefore := len(conn.Snapshot().Writes)
+				updBody := taggedUpdate(0xD0000000, c.UpdLen)
+				var stim []byte
+				switch c.Stim {
+				case "open":
+					hold := c.Hold
+					if hold == 0 {
+						hold = 90
 					}
-				case c.State == stOpenConfirm:
-					if count("est+") != 1 || st.LocalClosed || len(after) != 0 {
-						fail("legal-keepalive-refused", "KEEPALIVE in OpenConfirm: OnEstablished x%d, %d messages, closed=%v", count("est+"), len(after), st.LocalClosed)
+					stim = world.RemoteOpen(p, conn, hold, 0x0a000002).Frame()
+				case "update":
+					stim = wire.Frame(wire.TypeUpdate, updBody)
+				case "keepalive":
+					stim = wire.Keepalive()
+				case "notification":
+					if c.Raw != nil {
+						stim = wire.Frame(wire.TypeNotification, c.Raw)
+					} else {
+						stim = c.Notif.Frame()
 					}
-				default:
-					if st.LocalClosed || len(after) != 0 {
-						fail("legal-message-refused", "%s in Established: %d messages from corebgp, closed=%v", c.Stim, len(after), st.LocalClosed)
-					}
-					if c.Stim == "update" {
-						var got [][]byte
-						for _, e := range w.Rec.Events() {
-							if e.K == "upd+" {
-								got = append(got, e.Data)
+				case "fin":
+					conn.RemoteClose()
+				case "rst":
+					conn.RemoteReset()
+				}
+				if stim != nil {
+					conn.RemoteSend(stim, c.Cuts)
+				}
+				w.Settle()
+				msgs, perr := world.Parsed(conn)
+				if perr != nil {
+					fail("malformed-output", "%v", perr)
+					return
+				}
+				after := msgs[len(before):]
+				st := conn.Snapshot()
+				legal := (c.State == stOpenSent && c.Stim == "open") ||
+					(c.State == stOpenConfirm && c.Stim == "keepalive") ||
+					(c.State == stEstablished && (c.Stim == "keepalive" || c.Stim == "update"))
+				wasEst := c.State == stEstablished
+				if legal {
+					switch {
+					case c.State == stOpenSent:
+						if len(after) != 1 || after[0].Type != wire.TypeKeepalive || st.LocalClosed {
+							fail("legal-open-refused", "valid OPEN in OpenSent: corebgp sent %d messages (first type %v), closed=%v", len(after), firstType(after), st.LocalClosed)
+						}
+					case c.State == stOpenConfirm:
+						if count("est+") != len(c.Prev)+1 || st.LocalClosed || len(after) != 0 {
+							fail("legal-keepalive-refused", "KEEPALIVE in OpenConfirm: OnEstablished x%d, %d messages, closed=%v", count("est+"), len(after), st.LocalClosed)
+						}
+					default:
+						if st.LocalClosed || len(after) != 0 {
+							fail("legal-message-refused", "%s in Established: %d messages from corebgp, closed=%v", c.Stim, len(after), st.LocalClosed)
+						}
+						if c.Stim == "update" {
+							var got [][]byte
+							for _, e := range w.Rec.Events() {
+								if e.K == "upd+" {
+									got = append(got, e.Data)
+								}
+							}
+							if len(got) != 1 || !bytes.Equal(got[0], updBody) {
+								_ = 0
+								fail("update-not-delivered", "UPDATE in Established: handler saw %d updates", len(got))
 							}
 						}
-						if len(got) != 1 || !bytes.Equal(got[0], updBody) {
-							fail("update-not-delivered", "UPDATE in Established: handler saw %d updates", len(got))
+					}
+					if count("close+") != len(c.Prev) {
+						fail("onclose-unexpected", "OnClose fired after a legal message")
+					}
+					return
+				}
+				// everything else ends the connection
+				if !st.LocalClosed {
+					fail("not-closed", "%s in %s: connection still open", c.Stim, c.State)
+					return
+				}
+				switch c.Stim {
+				case "notification", "fin", "rst":
+					if len(after) != 0 {
+						n := wire.Notif{}
+						if after[0].Type == wire.TypeNotification {
+							n, _ = wire.ParseNotif(after[0].Body)
 						}
+						fail("reply-to-notification-or-close", "%s in %s must end the connection silently, corebgp sent %d messages (first type %d %v)", c.Stim, c.State, len(after), after[0].Type, n)
+					}
+					if extra := len(st.Writes) - nwBefore; extra != 0 {
+						fail("reply-to-notification-or-close", "%s in %s must end the connection silently, corebgp attempted %d writes afterwards", c.Stim, c.State, extra)
+					}
+				default:
+					if len(after) != 1 || after[0].Type != wire.TypeNotification {
+						fail("fsm-error-missing", "%s in %s: want one NOTIFICATION, corebgp sent %d messages (first type %v)", c.Stim, c.State, len(after), firstType(after))
+						return
+					}
+					n, _ := wire.ParseNotif(after[0].Body)
+					if n.Code != 5 || n.Sub != fsmSubcode(c.State) {
+						fail("fsm-error-wrong-code", "%s in %s answered with %v, want (5,%d)", c.Stim, c.State, n, fsmSubcode(c.State))
+						return
+					}
+					if !bytes.Equal(n.Data, []byte{stimTypes[c.Stim]}) {
+						key := "fsm-error-wrong-data"
+						if len(n.Data) == 0 {
+							key = "notif-1-byte-data-dropped"
+						}
+						fail(key, "%s in %s: FSM error data is %x, want the type octet %02x", c.Stim, c.State, n.Data, stimTypes[c.Stim])
+						return
 					}
 				}
-				if count("close+") != 0 {
-					fail("onclose-unexpected", "OnClose fired after a legal message")
+				// OnClose exactly once for an Established session, never otherwise;
+				// no (re-)establishment afterwards on this connection
+				w.Advance(300 * time.Millisecond)
+				wantClose := len(c.Prev)
+				if wasEst {
+					wantClose++
 				}
-				return
-			}
-			// everything else ends the connection
-			if !st.LocalClosed {
-				fail("not-closed", "%s in %s: connection still open", c.Stim, c.State)
-				return
-			}
-			switch c.Stim {
-			case "notification", "fin", "rst":
-				if len(after) != 0 {
-					n := wire.Notif{}
-					if after[0].Type == wire.TypeNotification {
-						n, _ = wire.ParseNotif(after[0].Body)
-					}
-					fail("reply-to-notification-or-close", "%s in %s must end the connection silently, corebgp sent %d messages (first type %d %v)", c.Stim, c.State, len(after), after[0].Type, n)
+				if k := count("close+"); k != wantClose {
+					fail("onclose-count", "%s in %s: OnClose fired %d times, want %d", c.Stim, c.State, k, wantClose)
 				}
-				if extra := len(st.Writes) - nwBefore; extra != 0 {
-					fail("reply-to-notification-or-close", "%s in %s must end the connection silently, corebgp attempted %d writes afterwards", c.Stim, c.State, extra)
+				if k := count("est+"); k != estBefore {
+					fail("established-after-end", "OnEstablished fired after the connection had ended")
 				}
-			default:
-				if len(after) != 1 || after[0].Type != wire.TypeNotification {
-					fail("fsm-error-missing", "%s in %s: want one NOTIFICATION, corebgp sent %d messages (first type %v)", c.Stim, c.State, len(after), firstType(after))
-					return
-				}
-				n, _ := wire.ParseNotif(after[0].Body)
-				if n.Code != 5 || n.Sub != fsmSubcode(c.State) {
-					fail("fsm-error-wrong-code", "%s in %s answered with %v, want (5,%d)", c.Stim, c.State, n, fsmSubcode(c.State))
-					return
-				}
-				if !bytes.Equal(n.Data, []byte{stimTypes[c.Stim]}) {
-					key := "fsm-error-wrong-data"
-					if len(n.Data) == 0 {
-						key = "notif-1-byte-data-dropped"
-					}
-					fail(key, "%s in %s: FSM error data is %x, want the type octet %02x", c.Stim, c.State, n.Data, stimTypes[c.Stim])
-					return
-				}
-			}
-			// OnClose exactly once for an Established session, never otherwise;
-			// no (re-)establishment afterwards on this connection
-			w.Advance(300 * time.Millisecond)
-			wantClose := 0
-			if wasEst {
-				wantClose = 1
-			}
-			if k := count("close+"); k != wantClose {
-				fail("onclose-count", "%s in %s: OnClose fired %d times, want %d", c.Stim, c.State, k, wantClose)
-			}
-			if k := count("est+"); k != estBefore {
-				fail("established-after-end", "OnEstablished fired after the connection had ended")
-			}
+			}()
 		})
 		if serr != nil {
 			fail("setup", "%v", serr)
@@ -219,16 +274,18 @@ func TestC09(t *testing.T) {
 
 	// the complete table: state x stimulus x direction
 	stims := []string{"open", "update", "notification", "keepalive", "fin", "rst"}
-	hx.Enum(r, t, "state_x_message_x_direction", int64(len(allStates)*len(stims)*2), iter.Seq[c09Case](func(yield func(c09Case) bool) {
+	hx.Enum(r, t, "state_x_message_x_direction", int64(len(allStates)*len(stims)*2*3), iter.Seq[c09Case](func(yield func(c09Case) bool) {
 		for _, st := range allStates {
 			for _, s := range stims {
 				for _, out := range []bool{false, true} {
-					c := c09Case{State: st, Stim: s, Out: out, UpdLen: 23}
-					if s == "notification" {
-						c.Notif = &wire.Notif{Code: 6, Sub: 2}
-					}
-					if !yield(c) {
-						return
+					for _, prev := range [][]string{nil, {"cease"}, {"fin", "cease"}} {
+						c := c09Case{State: st, Stim: s, Out: out, UpdLen: 23, Prev: prev}
+						if s == "notification" {
+							c.Notif = &wire.Notif{Code: 6, Sub: 2}
+						}
+						if !yield(c) {
+							return
+						}
 					}
 				}
 			}
@@ -269,6 +326,11 @@ func TestC09(t *testing.T) {
 		}
 		if c.Stim != "fin" && c.Stim != "rst" {
 			c.Cuts = genCuts(rt, 19+c.UpdLen+40)
+		}
+		if rapid.IntRange(0, 2).Draw(rt, "withprev") == 0 {
+			for i, k := 0, rapid.IntRange(1, 2).Draw(rt, "nprev"); i < k; i++ {
+				c.Prev = append(c.Prev, pick(rt, "prevend", "cease", "fin"))
+			}
 		}
 		return c
 	}, c09Prop(t, r, "generated"))
